@@ -1,4 +1,5 @@
 """Rules for C12 (request ids / reply contexts): OUTPARAM (callee side), IDWIDTH, CONVTYPE, LENCLEARED, UNINITCTX."""
+import json
 from .facts import strip, cval, walk, walk_own, show, callee_name
 from .ival import Analysis, AV, join
 from .core import Result, Broken, norm
@@ -393,4 +394,105 @@ def run_flexcopy(prog, ctx=None):
                     res.ob(key, False, f, n.get("l", 0),
                            "%s->%s lies at the end of an object allocated with a variable tail; assigning the struct copies only %s[%s], the bytes beyond it are lost" % (
                                ext[bs["d"]["id"]], tgt["f"], r2["fields"][-1]["n"], LT.get("n")))
+    return res
+
+
+FORMAT_FUNCS = {"mpt_log": 3, "mpt_printf": 1, "printf": 0, "fprintf": 1, "sprintf": 1, "snprintf": 2, "dprintf": 1, "syslog": 1}
+
+
+def _parse_format(s):
+    """conversion specifications of a printf format: list of classes 'int' | 'long' | 'size' | 'float' | 'str' | 'ptr' | 'star' """
+    out = []
+    i = 0
+    n = len(s)
+    while i < n:
+        if s[i] != "%":
+            i += 1
+            continue
+        i += 1
+        if i < n and s[i] == "%":
+            i += 1
+            continue
+        while i < n and s[i] in "-+ #0'":
+            i += 1
+        if i < n and s[i] == "*":
+            out.append("star")
+            i += 1
+        while i < n and s[i].isdigit():
+            i += 1
+        if i < n and s[i] == ".":
+            i += 1
+            if i < n and s[i] == "*":
+                out.append("star")
+                i += 1
+            while i < n and s[i].isdigit():
+                i += 1
+        length = ""
+        while i < n and s[i] in "hlqjztL":
+            length += s[i]
+            i += 1
+        if i >= n:
+            out.append("bad")
+            break
+        c = s[i]
+        i += 1
+        if c in "diouxXc":
+            out.append("long" if length in ("l", "ll", "q", "j", "z", "t") else "int")
+        elif c in "fFeEgGaA":
+            out.append("float")
+        elif c == "s":
+            out.append("str")
+        elif c == "p":
+            out.append("ptr")
+        elif c == "n":
+            out.append("ptr")
+        else:
+            out.append("bad")
+    return out
+
+
+def run_formatargs(prog, ctx=None):
+    """FORMATARGS: calls of the logging / printing functions with a literal format pass one argument per conversion, of the
+    class the conversion reads (string conversions get a pointer, integer conversions an integer of at least that width)"""
+    res = Result("FORMATARGS")
+    files = set(ctx.get("files", [])) if ctx else None
+    for f in funcs_of(prog, files):
+        for b, i, e in f.elements():
+            if e.get("k") != "call":
+                continue
+            name = (callee_name(e) or "").split("::")[-1]
+            if name not in FORMAT_FUNCS:
+                continue
+            fi = FORMAT_FUNCS[name]
+            args = e.get("args", [])
+            if len(args) <= fi:
+                continue
+            fm = strip(args[fi], all_casts=True)
+            if fm.get("k") != "str":
+                continue
+            convs = _parse_format(fm.get("s", ""))
+            rest = args[fi + 1:]
+            why = ""
+            if "bad" in convs:
+                why = "format not understood"
+            elif len(convs) > len(rest):
+                why = "%d conversions, %d arguments" % (len(convs), len(rest))
+            else:
+                # surplus arguments are evaluated and ignored (defined); a conversion reading the wrong class is not
+                for k, (c, a) in enumerate(zip(convs, rest)):
+                    T = f.T(strip(a, lvalue_to_rvalue=True).get("t"))
+                    kind = T.get("k")
+                    if c in ("str", "ptr") and kind not in ("ptr", "array"):
+                        why = "conversion %d reads a pointer, argument `%s` is %s" % (k + 1, norm(show(a, f))[:30], T.get("s"))
+                    elif c in ("int", "star", "long") and kind not in ("int", "enum", "bool"):
+                        why = "conversion %d reads an integer, argument `%s` is %s" % (k + 1, norm(show(a, f))[:30], T.get("s"))
+                    elif c in ("int", "star") and (T.get("sz") or 4) > 4:
+                        why = "conversion %d reads an int, argument `%s` is %s (8 bytes)" % (k + 1, norm(show(a, f))[:30], T.get("s"))
+                    elif c == "long" and (T.get("sz") or 4) < 8:
+                        why = "conversion %d reads a 64 bit integer, argument `%s` is %s" % (k + 1, norm(show(a, f))[:30], T.get("s"))
+                    elif c == "float" and kind != "float":
+                        why = "conversion %d reads a double, argument `%s` is %s" % (k + 1, norm(show(a, f))[:30], T.get("s"))
+                    if why:
+                        break
+            res.ob("%s:%s(%s)" % (f.qn, name, json.dumps(fm.get("s", ""))[:40]), not why, f, e.get("l", f.line), why)
     return res
